@@ -191,6 +191,8 @@ def gen_programs(seed, n_cases):
         dw = mac.world_of_output(exp)
         if not dw:
             continue   # every archetype disabled: F5 territory (known finding), covered by the mac stream
+        if len({an for (an, _) in dw}) != len(dw):
+            continue   # two enabled archetypes with one name: a plain Rust redefinition error, with and without the attributes
         if any(not comps for (_, comps) in dw):
             continue   # an archetype without any enabled component has no storage type (`Storage0`): rejected with and without the attributes alike
         anames = [a[2] for a in w[1]]
